@@ -33,6 +33,7 @@ type genState struct {
 	colls  map[string]bool
 	cmpOf  map[string]int
 	shadow map[string]map[string]int32 // approximate contents: name -> key -> priority
+	shadowV map[string]map[string][]byte // ... and the value last written
 	// once a Flush may have persisted a collection under some comparator, the name keeps it (the application
 	// must supply the comparator the data was built with when the file is loaded again)
 	everFlushed bool
@@ -46,6 +47,13 @@ func (g *genState) track(o Op) {
 				g.shadow[o.Name] = map[string]int32{}
 			}
 			g.shadow[o.Name][string(o.Key)] = o.Prio
+			if g.shadowV == nil {
+				g.shadowV = map[string]map[string][]byte{}
+			}
+			if g.shadowV[o.Name] == nil {
+				g.shadowV[o.Name] = map[string][]byte{}
+			}
+			g.shadowV[o.Name][string(o.Key)] = o.Val
 		}
 	case "del":
 		delete(g.shadow[o.Name], string(o.Key))
@@ -243,6 +251,18 @@ func GenHistory(r *Rng, cfg GenCfg) []Op {
 		switch {
 		case x < 34:
 			op := Op{K: "set", Name: n, Key: g.key(), Val: genVal(r, cfg.BigVals), Prio: g.prio()}
+			if old, ok := g.shadowV[n][string(op.Key)]; ok && len(old) > 0 && r.Chance(1, 5) {
+				// overwrite with a value of the same length that differs only in its last byte
+				// (or not at all), keeping or changing the priority
+				v := append([]byte{}, old...)
+				if r.Chance(3, 4) {
+					v[len(v)-1] ^= byte(1 + r.Intn(255))
+				}
+				op.Val = v
+				if r.Chance(1, 2) {
+					op.Prio = g.shadow[n][string(op.Key)]
+				}
+			}
 			if cfg.Invalid && r.Chance(1, 12) {
 				switch r.Intn(5) {
 				case 0:
